@@ -133,32 +133,35 @@ def run(ctx):
                               'section 3 does not hold the descriptor list F/X/Y packed: %s vs %s' % (d3.hex()[:60], want.hex()[:60]))
         if c['impl_enc'][0] != 'ok':
             ctx.dist['encoder-refused-%d' % c['impl_enc'][1]] += 1
-        if c['compressed'] and c['impl_enc'][0] == 'ok' and eq:
-            # C02_encode_canonical_compressed on the extracted code: the layout accepts and gives the same bits;
-            # and the implementation's bits satisfy the canonical-column predicate
+        canon_ok, canon_why = True, ''
+        if c['compressed'] and c['impl_enc'][0] == 'ok':
+            # C02_encode_canonical_compressed on the extracted code: the layout accepts and gives the same bits as the
+            # encoder model; and the implementation's bits satisfy the canonical-column predicate
             mc = c.get('model_canonc', 'err -1')
-            ceq, cdetail = P.compare_encode(dict(c, model_enc=mc))
-            ctx.dist['compressed-layout-compared'] += 1
-            if not ceq:
-                ctx.violation({'kind': 'C02-compressed-layout-mismatch', 'case': case, 'detail': cdetail, 'canonc': mc[:60],
-                               'no_failing_input': True, 'broken': 'SpecC.canonical_bits_c / EncodeC.encode_compressed (extraction)'},
-                              'ids=%s canonical column layout differs from the encoder: %s' % (c['ids'], cdetail))
-            else:
+            if eq:
+                ceq, cdetail = P.compare_encode(dict(c, model_enc=mc))
+                ctx.dist['compressed-layout-compared'] += 1
+                if not ceq:
+                    ctx.violation({'kind': 'C02-compressed-layout-mismatch', 'case': case, 'detail': cdetail, 'canonc': mc[:60],
+                                   'no_failing_input': True, 'broken': 'SpecC.canonical_bits_c / EncodeC.encode_compressed (extraction)'},
+                                  'ids=%s canonical column layout differs from the encoder: %s' % (c['ids'], cdetail))
+            if mc.startswith('ok '):
                 shape = mc.split(' ')[2]
                 shape = [] if shape == '-' else shape.split(',')
-                ok, why, used = canonical_columns_hold(P.hex_to_bits(c['impl_enc'][1], c['impl_enc'][2]), shape, c['nsub'])
+                canon_ok, canon_why, used = canonical_columns_hold(P.hex_to_bits(c['impl_enc'][1], c['impl_enc'][2]), shape, c['nsub'])
                 for tok in shape:
                     ctx.dist['column-' + ('numeric-width0' if tok[0] == 'n' and tok.endswith('.0') else
                                           'numeric-increments' if tok[0] == 'n' else
                                           'string-width0' if tok[0] == 's' and tok.endswith('.0') else
                                           'string-increments' if tok[0] == 's' else 'refval')] += 1
-                if ok and used != int(mc.split(' ')[1].split(':')[1]):
-                    ok, why = False, 'columns end at bit %d, layout has %s bits' % (used, mc.split(' ')[1].split(':')[1])
-                if not ok:
-                    ctx.violation({'kind': 'C02-compressed-column-not-canonical', 'case': case, 'detail': why}, 'ids=%s %s' % (c['ids'], why))
+                if canon_ok and used != int(mc.split(' ')[1].split(':')[1]):
+                    canon_ok, canon_why = False, 'columns end at bit %d, layout has %s bits' % (used, mc.split(' ')[1].split(':')[1])
+                if eq and not canon_ok:
+                    ctx.violation({'kind': 'C02-compressed-column-not-canonical', 'case': case, 'detail': canon_why},
+                                  'ids=%s %s' % (c['ids'], canon_why))
         if not eq:
-            rt = P.roundtrip_holds(c)
-            rec = {'kind': 'C02-encode-mismatch', 'case': case, 'detail': detail,
+            rt = P.roundtrip_holds(c) and canon_ok
+            rec = {'kind': 'C02-encode-mismatch', 'case': case, 'detail': detail + (' | ' + canon_why if canon_why else ''),
                    'property_predicate_holds_on_impl': rt}
             if rt:
                 rec['no_failing_input'] = True
